@@ -255,11 +255,14 @@ func (x *Exec) callFunc(fn *types.Func, recv *Value, call *ast.CallExpr, st *Sta
 			if pt, isPtr := types.Unalias(at).(*types.Pointer); isPtr {
 				at = pt.Elem() // pointer to a named type specialises on the pointee
 			}
+			sliceOf := ""
+			if sl, isSl := types.Unalias(at).(*types.Slice); isSl {
+				// []Named specialises as "@[]pkg.Named"
+				at = sl.Elem()
+				sliceOf = "[]"
+			}
 			if n, ok := types.Unalias(at).(*types.Named); ok {
-				if _, argIface := n.Underlying().(*types.Interface); argIface {
-					continue
-				}
-				skey := key + "@" + qualName(n)
+				skey := key + "@" + sliceOf + qualName(n)
 				if c := x.eng.db.C[skey]; c != nil {
 					var args []*Value
 					for j, b := range call.Args {
